@@ -32,7 +32,7 @@ def invalid1 (op : Op) (x : Val) : Val := invalid op (classCode x) 0
 /-! ## C01: addition and subtraction -/
 
 def negate : Val → Val
-  | .nan n p => .nan n p
+  | .nan n p => .nan (!n) p
   | .inf n => .inf (!n)
   | .fin n c e => .fin (!n) c e
 
